@@ -88,7 +88,7 @@ def replay_sweep(rec, ctx, np, P, fams, shapes):
                 else:
                     for j, n in enumerate(ns):
                         want = np.asarray(single(n, x))
-                        if not np.allclose(got[j], want, rtol=1e-9, atol=1e-9 * (1 + np.abs(want).max())):
+                        if not np.allclose(got[j], want, rtol=1e-9, atol=1e-9 * (1 + core.maxabs(want))):
                             sig, det = 'slot', 'slot %d (order %d) differs from the single-order function: %s vs %s' % (
                                 j, n, np.round(np.ravel(got[j])[:4], 6).tolist(), np.round(np.ravel(want)[:4], 6).tolist())
                             break
@@ -135,7 +135,7 @@ def replay_lookup(rec, ctx, np, P, shapes):
                 else:
                     for j, (n, m) in enumerate(req):
                         want = np.asarray(single(n, m))
-                        if not np.allclose(got[j], want, rtol=1e-9, atol=1e-9 * (1 + np.abs(want).max())):
+                        if not np.allclose(got[j], want, rtol=1e-9, atol=1e-9 * (1 + core.maxabs(want))):
                             zero = (name == 'xy_seq' and (n == 0 or m == 0))
                             sig, det = 'slot' + (':zero-exponent' if zero else ''), 'slot %d (%d, %d) differs from the single function: %s vs %s' % (
                                 j, n, m, np.round(np.ravel(got[j])[:4], 6).tolist(), np.round(np.ravel(want)[:4], 6).tolist())
